@@ -262,7 +262,7 @@ pub fn run(ctx: &Ctx) {
     let root = tree.root.clone();
     let max_ops = if ctx.quick() { 160 } else { 300 };
     *ctx.max_shrink_iters.borrow_mut() = 24;
-    ctx.prop("histories", ctx.share(ctx.scale(480, 12000)), history_strategy(max_ops), |h| run_history(ctx, &root, h));
+    ctx.prop("histories", ctx.share(ctx.scale(480, 6000)), history_strategy(max_ops), |h| run_history(ctx, &root, h));
     let fs = (any::<u8>(), any::<bool>(), prop_oneof![3 => (0usize..800).prop_map(WriteScript::ErrAfter), 1 => Just(WriteScript::Zero), 1 => Just(WriteScript::Unlimited), 1 => (1usize..50).prop_map(WriteScript::Chunk)], proptest::bool::weighted(0.3), proptest::bool::weighted(0.2))
         .prop_map(|(request, faulty, script, flush_err, read_err)| FaultCase { request, faulty, script, flush_err, read_err });
     ctx.prop("transport-faults", ctx.share(ctx.scale(8_000, 400_000)), fs, |c| eval_fault(ctx, c));
